@@ -19,17 +19,22 @@ VARIABLES pending,    \* works accepted by the acceptor, not yet received by the
           alive,      \* the loop is still running
           progress,   \* loop iterations the canary has been served
           finished,   \* works that were shut down (their shutdown was called)
+          advmask,    \* events adv's get_events asks for: "r" | "rw" (a work with output pending also asks for writability)
+          regmask,    \* events under which adv's descriptor was last registered / modified
           vanished    \* the selector has silently dropped adv's descriptor (closed / reused number: epoll forgets it) while the
                       \* executor's bookkeeping still lists it: adv gets no events, and unregistering it raises KeyError
-vars == <<pending, works, registered, armed, advwants, alive, progress, finished, vanished>>
+vars == <<pending, works, registered, armed, advwants, alive, progress, finished, vanished, advmask, regmask>>
 
 Init == /\ pending \in {<<"adv", "can">>, <<"can", "adv">>, <<"can">>} /\ works = {} /\ registered = {} /\ armed = "none" /\ advwants = "go"
-        /\ alive = TRUE /\ progress = 0 /\ finished = {} /\ vanished = FALSE
+        /\ alive = TRUE /\ progress = 0 /\ finished = {} /\ vanished = FALSE /\ advmask = "r" /\ regmask = "r"
 
 \* environment: arm a fault at a call site of the adversary / make it ask for teardown / a new adversary connects
-Arm(s) == armed = "none" /\ alive /\ armed' = s /\ UNCHANGED <<pending, works, registered, advwants, alive, progress, finished, vanished>>
-Vanish == "adv" \in registered /\ alive /\ ~vanished /\ vanished' = TRUE /\ UNCHANGED <<pending, works, registered, armed, advwants, alive, progress, finished>>
-WantTeardown == advwants = "go" /\ alive /\ advwants' = "teardown" /\ UNCHANGED <<pending, works, registered, armed, alive, progress, finished, vanished>>
+Arm(s) == armed = "none" /\ alive /\ armed' = s /\ UNCHANGED <<pending, works, registered, advwants, alive, progress, finished, vanished, advmask, regmask>>
+Vanish == "adv" \in registered /\ alive /\ ~vanished /\ vanished' = TRUE /\ UNCHANGED <<pending, works, registered, armed, advwants, alive, progress, finished, advmask, regmask>>
+WantTeardown == advwants = "go" /\ alive /\ advwants' = "teardown" /\ UNCHANGED <<pending, works, registered, armed, alive, progress, finished, vanished, advmask, regmask>>
+\* adv starts asking for other events than it is registered for: the executor will call selector.modify, which raises for a
+\* descriptor the selector has lost (epoll_ctl(MOD) -> ENOENT after the number was closed / reused)
+WantWrite == advmask = "r" /\ alive /\ advmask' = "rw" /\ UNCHANGED <<pending, works, registered, armed, advwants, alive, progress, finished, vanished, regmask>>
 
 Raises(w, s) == w = "adv" /\ armed = s
 
@@ -46,14 +51,23 @@ CleanupOf(w, st) ==
       alive |-> st.alive /\ (~boom \/ FIX),
       armed |-> IF boom THEN "none" ELSE st.armed ]
 
+GeBoom == "adv" \in works /\ armed = "get_events"
+\* selector.modify for a registered work whose events changed raises when the selector has lost the descriptor
+ModBoom == ~GeBoom /\ "adv" \in works /\ "adv" \in registered /\ vanished /\ advmask # regmask
+
 Tick ==
     /\ alive
+    /\ regmask' = (IF "adv" \in works /\ ~GeBoom /\ ~ModBoom THEN advmask ELSE regmask) /\ UNCHANGED advmask
     /\ LET st0 == [works |-> works, registered |-> registered, finished |-> finished, alive |-> alive, armed |-> armed]
            \* 1. refresh selector registrations: get_events of every held work
-           geBoom == "adv" \in works /\ armed = "get_events"
+           geBoom == GeBoom
+           modBoom == ModBoom
            st1 == IF geBoom
                   THEN (IF FIX THEN [CleanupOf("adv", [st0 EXCEPT !.armed = "none"]) EXCEPT !.registered = works \ {"adv"}]
                         ELSE [st0 EXCEPT !.alive = FALSE, !.armed = "none"])
+                  ELSE IF modBoom
+                  THEN (IF FIX THEN [CleanupOf("adv", st0) EXCEPT !.registered = works \ {"adv"}]
+                        ELSE [st0 EXCEPT !.alive = FALSE])
                   ELSE [st0 EXCEPT !.registered = works]
        IN IF ~st1.alive THEN /\ alive' = FALSE /\ armed' = st1.armed /\ works' = st1.works /\ registered' = st1.registered
                              /\ finished' = st1.finished /\ UNCHANGED <<pending, advwants, progress, vanished>>
@@ -83,9 +97,9 @@ Reap ==
            st1 == IF boom THEN (IF FIX THEN CleanupOf("adv", [st0 EXCEPT !.armed = "none"]) ELSE [st0 EXCEPT !.alive = FALSE, !.armed = "none"])
                   ELSE st0
        IN /\ works' = st1.works /\ registered' = st1.registered /\ finished' = st1.finished /\ alive' = st1.alive /\ armed' = st1.armed
-          /\ UNCHANGED <<pending, advwants, progress>> /\ vanished' = (vanished /\ "adv" \in st1.registered)
+          /\ UNCHANGED <<pending, advwants, progress, advmask, regmask>> /\ vanished' = (vanished /\ "adv" \in st1.registered)
 
-Next == (\E s \in Sites : Arm(s)) \/ WantTeardown \/ Vanish \/ Tick \/ Reap
+Next == (\E s \in Sites : Arm(s)) \/ WantTeardown \/ WantWrite \/ Vanish \/ Tick \/ Reap
 Spec == Init /\ [][Next]_vars
 FairSpec == Spec /\ WF_vars(Tick)
 
